@@ -130,7 +130,7 @@ def _wrap_trainer(base):
                     for i, x in enumerate(v if isinstance(v, tuple) else (v,)):
                         if x is not None and hasattr(x, "f") and x.tlen is None:
                             parts.append((f"{name}[{i}]", x.f))
-                c.ensure("reductions_are_over_the_batch_dimension", all((d == 0) for _x, d in env.reductions) and len(env.reductions) >= 1)
+                c.ensure("reductions_are_over_the_batch_dimension", all((r[1] == 0) for r in env.reductions) and len(env.reductions) >= 1)
                 for lab, term in parts:
                     esc = _escapes(term, sample_names)
                     c.ensure(f"{lab}:per_sample_data_reaches_the_updater_only_through_the_batch_reduction", z3.BoolVal(esc is None))
